@@ -10,6 +10,18 @@ TB = ("Trusted: govc (own Go-to-SMT VC generator over the typed AST of /repo) an
       "assumed contracts of external functions in specs/externals.spec; ")
 
 CLAIMED = {
+ "C04": dict(
+   category="proof",
+   text="The scheduling goroutine of the limit discipline (main/loop/transfer/pass/send/delay) is verified as a sequential program whose channel receives, clock readings and sleeps are adversarial events. The send-event hook requires the property's own formula: sent+1 <= Quantity*((clock-t0) div Interval + 1), proved from the loop invariants 'at most Quantity*k elements left before batch k' and 'batch k starts no earlier than t0+k*Interval' (from Since, Interval-duration, Sleep(d) lasts >= d). Holds for every arrival pattern and consumer speed because received values and blocking are unconstrained. The window form (W -> floor(W/Interval)+2) follows arithmetically from the same two invariants and is argued in DESIGN.md, not a separate obligation.",
+   design_ref="DESIGN.md §7 C04",
+   note=TB + "relative to the clock axioms: time.Now/Since monotonic, time.Sleep(d) lasts at least d, clock differences fit int64; 'left the output' = the discipline's send completed; ghost initial state and allocatable capacity are preconditions of New.",
+   technique="contract-based deductive verification with ghost event hooks on channel/clock operations; loop invariants; z3/cvc5"),
+ "C12": dict(
+   category="proof",
+   text="Ghost sequence gIn records every received element; the send hook requires v == gIn[gOutN] (no loss, duplication, reordering), the close hook requires 'input observed closed and gOutN == gInN', the Sleep hook requires 'a full batch of Quantity elements preceded it' and 'd <= Interval' (no pause below Quantity, no extra throttling). All for arbitrary element counts, rates, capacities and arrival patterns. Not decided: the wall-clock bound 'within about ceil(N/Quantity) Intervals' additionally needs Sleep not to oversleep (runtime).",
+   design_ref="DESIGN.md §7 C12",
+   note=TB + "Go channel FIFO/exactly-once semantics turn 'sequence received by the goroutine' into 'sequence written by producers'; time.Sleep accuracy is a runtime fact.",
+   technique="contract-based deductive verification with ghost event hooks; loop invariants; z3/cvc5"),
  "C13": dict(
    category="proof",
    text="Contracts on Rate.IsValid/Recalculate/recalculateQuantity/Flatten/Optimize; the post-condition of Recalculate is the property statement (error => zero Rate and a permitted cause; success => valid, >= minimum, minimal, speed within rounding in product form). Loop-free code, full int64/uint64 domain, nonlinear integer arithmetic in the solvers: a complete proof, every path an obligation. Failing models are replayed on the real function via go test -overlay.",
